@@ -44,4 +44,14 @@ def histVerdicts (spec : C → ClassSpec) : CState C Pat → List (C × Word × 
     let (st', p) := cacheQuery (fun c => (spec c).pat) st c
     ({ (spec c) with pat := p } : ClassSpec).isValidC w circ :: histVerdicts spec st' rest
 
+/-- `Family.characterize(record)` run against the cache: the candidates (direct subclasses in definition order,
+then the class itself when concrete) are asked one after the other, each through its own cached pattern; the
+answer is the position of the first that accepts (`none` = `RuntimeError`), `i` = positions already passed -/
+def charRun (spec : C → ClassSpec) : CState C Pat → List C → Word → Nat → CState C Pat × Option Nat
+  | st, [], _, _ => (st, none)
+  | st, c :: cs, w, i =>
+    if ({ (spec c) with pat := (cacheQuery (fun c => (spec c).pat) st c).2 } : ClassSpec).isValidC w true
+    then ((cacheQuery (fun c => (spec c).pat) st c).1, some i)
+    else charRun spec (cacheQuery (fun c => (spec c).pat) st c).1 cs w (i + 1)
+
 end Moclo
